@@ -340,6 +340,7 @@ func c18run(r *rand.Rand, d *c18dag, mode int, failTask int, abort bool, watchdo
 				return nil
 			}
 			k := 1
+			rmu.Lock() // the task runners draw their delays from the same PRNG
 			switch mode {
 			case 1:
 				k = 1 + r.IntN(len(cand))
@@ -350,6 +351,7 @@ func c18run(r *rand.Rand, d *c18dag, mode int, failTask int, abort bool, watchdo
 				sort.Sort(sort.Reverse(sort.StringSlice(cand)))
 			case 4: // lowest first
 			}
+			rmu.Unlock()
 			for _, pick := range cand[:k] {
 				released[pick] = true
 				getGate(pick) <- struct{}{}
